@@ -2,6 +2,7 @@ package main
 
 import (
 	"fmt"
+	"os"
 	"sort"
 	"strings"
 	"sync"
@@ -170,6 +171,13 @@ func (w *slopeWorld) cycle(i int) error {
 			return fmt.Errorf("cycle %d: close barrier: %v", i, err)
 		}
 	}
+	if os.Getenv("C10_DEBUG") != "" {
+		for _, ss := range w.e.srv.Snapshot().Sessions {
+			if ss.RunID == a.rid {
+				run.Count("slope_pool_at_end_"+w.e.name, int64(ss.PoolLen))
+			}
+		}
+	}
 	a.close()
 	if !waitSessionGone(w.e, a.rid, 15*time.Second) {
 		run.Violation("slope-session-not-removed", "leak cycle %d on %s: session still in the table 15 s after its end", i, w.e.name)
@@ -209,6 +217,9 @@ func leakSlopes(c *h.Case, envs []*env, cycles int) {
 			samples = append(samples, s)
 			c.Ev("slope-sample", "cycle", done, "goroutines", s.gor, "fds", s.fds, "tables", s.tables)
 			run.Count("slope_samples", 1)
+			if os.Getenv("C10_DEBUG") != "" {
+				fmt.Fprintf(os.Stderr, "slope sample cycle=%d goroutines=%d fds=%d tables=%v\n", done, s.gor, s.fds, s.tables)
+			}
 		}
 	}
 	if len(samples) < 4 {
@@ -237,6 +248,13 @@ func leakSlopes(c *h.Case, envs []*env, cycles int) {
 			run.Violation("goroutine-growth-"+siteKey(site), "goroutines created at %s: %d, %d, %d after %d, %d, %d identical cycles (same names) on each of %d servers",
 				site, s1.sites[site], s2.sites[site], s3.sites[site], s1.cycle, s2.cycle, s3.cycle, len(envs))
 		}
+	}
+	if os.Getenv("C10_DEBUG") != "" {
+		fmt.Fprintf(os.Stderr, "slope site diff: %v\nsites: %v\n", h.DiffSites(s1.sites, s3.sites), s3.sites)
+	}
+	if grows(s1.gor, s2.gor, s3.gor) {
+		run.Violation("goroutine-growth-total", "goroutines of the process: %d, %d, %d after %d, %d, %d identical cycles (same names) on each of %d servers; sites that grew: %v",
+			s1.gor, s2.gor, s3.gor, s1.cycle, s2.cycle, s3.cycle, len(envs), h.DiffSites(s1.sites, s3.sites))
 	}
 	if grows(s1.fds, s2.fds, s3.fds) {
 		run.Violation("descriptor-growth", "open descriptors of the process: %d, %d, %d after %d, %d, %d identical cycles; goroutine sites that changed: %v",
